@@ -63,6 +63,8 @@ def draw_x(rng, fname):
     """A real base point in the domain of fname, away from its singular points."""
     u = rng.random()
     if fname in ('log', 'log2', 'log10', 'sqrt', 'powr'):
+        if u < 0.12:
+            return float(10.0 ** rng.uniform(-30, -14))       # tiny but perfectly regular arguments (absolute thresholds!)
         return float(10.0 ** rng.uniform(-1, 1.3))
     if fname == 'log1p':
         return float(rng.uniform(-0.9, 5.0)) if u < 0.7 else float(rng.choice([-1, 1]) * 10.0 ** rng.uniform(-6, -1))
@@ -92,7 +94,7 @@ def draw_x(rng, fname):
 
 
 def draw_h(rng, x, force_all=False):
-    s = max(abs(x), 1e-3)
+    s = max(abs(x), 1e-3) if abs(x) >= 1e-12 else abs(x)     # (tiny base points of log / sqrt / powers: perturbations relative to x)
     h = []
     for _ in range(3):
         if not force_all and rng.random() < 0.15:
@@ -132,7 +134,9 @@ def cases(rng, tier, shard, nshards):
                 x = float(rng.choice([-1, 1]) * rng.uniform(0.3, 4))
                 e = int(rng.choice([-3, -2, -1, 2, 3, 4, 5]))
             elif pk == 'real':
-                x, e = float(rng.uniform(0.2, 6)), float(rng.choice([0.5, 1.5, -0.5, 2.5, 0.3333, rng.uniform(-3, 3)]))
+                x, e = float(rng.uniform(0.2, 6)), float(rng.choice([0.5, 1.5, -0.5, 2.5, 0.3333, 2.0, 3.0, rng.uniform(-3, 3)]))
+                if rng.random() < 0.15:
+                    x = float(10.0 ** rng.uniform(-30, -14))
             elif pk == 'bicomplex':
                 x, e = float(rng.uniform(0.3, 4)), float(rng.uniform(-2, 2))
             else:
